@@ -887,8 +887,10 @@ fn region_heads(c: &Case, run: &RunOut) -> String {
 /// or an annotation make opaque
 fn empty_opaque_base(c: &Case) -> Option<String> {
     let p = &c.prog;
-    for &i in &c.opaque {
+    for i in 0..p.decls.len() {
         let d = &p.decls[i];
+        // opaque by the generator's own selection, by an opaque pattern (also when it is blocklisted as well) or by annotation
+        if !(c.opaque.contains(&i) || am::set_matches(&c.opaque_pats, &p.path(i)) || d.text.contains("rustbindgen opaque")) { continue; }
         if d.text.trim_end().ends_with(&format!("struct {} {{}};", d.base)) || d.text.contains(&format!("struct {} {{}};", d.base)) {
             if p.decls.iter().any(|u| u.text.contains(&format!(" : {} {{", d.base))) { return Some(d.base.clone()); }
         }
@@ -997,6 +999,7 @@ fn run_rustc(queue: &[(String, String, String)], st: &mut Stats, fails: &mut Vec
                         if e.contains("E0204") || e.contains("E0740") || e.contains("E0277") { st.known("derive_through_blocklisted_opaque", format!("{}; input {}", heads.iter().find(|l| l.starts_with("// blocklisted-and-opaque")).unwrap_or(&""), &input[..input.len().min(1500)])); }
                     } else {
                         let first: String = e.lines().filter(|l| l.starts_with("error")).take(3).collect::<Vec<_>>().join(" | ");
+                        if let Ok(pth) = std::env::var("C10_DUMP_FAIL") { let _ = std::fs::write(&pth, format!("{b}\n/* ERRORS\n{e}\n*/\n")); }
                         fails.push(Failure { kind: "oracle-compile", detail: format!("bindings with blocklisted types do not compile against user-supplied definitions of the C size/alignment (no derives): {first}"), input: input.clone() });
                     }
                 }
